@@ -1,7 +1,7 @@
 (* C04/Refuted.v -- what two REPAIRED defects were, as statements about the explicit old
    variant of the model (both findings are fixed in /repo: 7ebf769, c9dadbb; the probes with
    the same keys now pass and would fail again if a defect returned). *)
-From Coq Require Import ZArith Reals List Bool.
+From Coq Require Import ZArith Reals Lra List Bool.
 From Verif Require Import Base.Num Base.Vec C04.Model C04.Proofs C04.Instances.
 Import ListNotations.
 Local Open Scope R_scope.
@@ -29,3 +29,33 @@ Definition wit_ip : leaf R := LIP 0 [1].
 Lemma add_scalar_field_range_rejected_R :
   build variant_old (SAddC (SLeaf wit_ip) 1) = Err TypeErr.
 Proof. reflexivity. Qed.
+
+(* Fixed by 52720c8 (finding mixed-field:complex-right-scalar-shortcut-on-real-linear-operator):
+   before it, Operator.__mul__ rewrote A*a to a*A for EVERY scalar of the range field.  ODL
+   flags operators linear that are only real-linear (ImagPart, RealPart and whatever is composed
+   with them); for such an A and a complex a the two objects differ in VALUE.  Witness over
+   C = R*R: A = "imaginary part" (additive, homogeneous for real scalars), a = i, x = [1]:
+   (a*A)(x) = i*Im(1) = 0   but   (A*a)(x) = Im(i*1) = 1. *)
+From Verif Require Import C04.Cplx.
+Definition im_leaf : leaf RC :=
+  {| l_id := 0; l_dom := SV 1; l_ran := SV 1; l_lin := true; l_func := false;
+     l_fun := map (fun z : RC => (snd z, 0)) |}.
+Lemma im_leaf_real_linear :
+  (forall (r : R) (x : list RC), l_fun im_leaf (vscal (r, 0) x) = vscal (r, 0) (l_fun im_leaf x))
+  /\ (forall x y : list RC, length x = length y ->
+        l_fun im_leaf (vadd x y) = vadd (l_fun im_leaf x) (l_fun im_leaf y)).
+Proof.
+  split.
+  - intros r x. cbn [l_fun im_leaf]. unfold vscal. rewrite !map_map. apply map_ext. intros [a b].
+    cbn [nmul Num_RC]. unfold rc_mul. cbn [fst snd]. f_equal; ring.
+  - intros x. induction x as [|[a b] x IH]; intros [|[c d] y] E; cbn in E; try discriminate; [reflexivity|].
+    cbn [l_fun im_leaf] in *. unfold vadd in *. cbn [vmap2 map nadd Num_RC]. unfold rc_add at 1 3. cbn [fst snd].
+    rewrite IH by congruence. f_equal. f_equal. ring.
+Qed.
+Lemma complex_shortcut_old_rule_refuted_RC :
+  let i : RC := (0, 1) in let x : list RC := [(1, 0)] in
+  eval (OLScal false (OLeaf im_leaf) i) x <> eval (ORScal false (OLeaf im_leaf) i) x.
+Proof.
+  cbn [eval l_fun im_leaf vscal map nmul Num_RC]. unfold rc_mul. cbn [fst snd]. intros E.
+  injection E as E1 _. lra.
+Qed.
